@@ -158,6 +158,13 @@ class FlagFormula:
         if isinstance(e, ast.Name):
             ds = reaching_definitions(self.fn.node, e.id, self.use, self.pm)
             plain = [(st, v) for st, v, how in ds if v is not None]
+            if ds and len(plain) == len(ds) and len(plain) > 1 and all(isinstance(v, ast.Constant) and isinstance(v.value, bool) for _, v in plain) and self.depth < 8:
+                # a flag set to True / False in different branches (`todo = False ... if A: if B: ... else: todo = True`): it is True
+                # exactly where a True-assignment ran last -- with the False initialisation first, where some True-assignment ran
+                trues = [st for st, v in plain if v.value is True]
+                falses = [st for st, v in plain if v.value is False]
+                if falses and all(astq.position(fs_) < astq.position(ts_) for fs_ in falses for ts_ in trues):
+                    return ('or', [_guard_formula(self.fn, ts_, self.pm) for ts_ in trues]) if trues else ('const', False)
             if any(v is not None and any(isinstance(x, ast.Attribute) and x.attr == 'integral' for x in ast.walk(v)) for _, v in plain):
                 # constant definitions (True/False) belong to the cases where the operand is public data
                 plain2 = [(st, v) for st, v in plain if not (isinstance(v, ast.Constant) and isinstance(v.value, bool))]
@@ -189,6 +196,34 @@ class FlagFormula:
         if isinstance(e, ast.Compare) and len(e.ops) == 1 and isinstance(e.ops[0], ast.NotEq):
             return ('not', atom(fnorm(ast.Compare(left=e.left, ops=[ast.Eq()], comparators=e.comparators))))
         return atom(fnorm(e))
+
+
+def _guard_formula(fn, node, pm):
+    """The condition under which node runs, as a flag formula: enclosing if statements (either branch) and earlier early exits that
+    depend on the scale or the flags."""
+    conj = []
+    for i, br in enclosing_ifs(node, pm, stop=fn.node):
+        ff = FlagFormula(fn, i, pm)
+        g = ff.build(i.test)
+        conj.append(g if br == 'body' else ('not', g))
+    # early exits: `if C: return / raise / continue / break` earlier in an enclosing block means not C here
+    x = astq.enclosing_stmt(node, pm)
+    while x is not None and x is not fn.node:
+        p_ = pm.get(id(x))
+        if p_ is None:
+            break
+        for blk in astq._blocks(p_):
+            if any(x is s_ for s_ in blk):
+                for s_ in blk:
+                    if s_ is x:
+                        break
+                    if isinstance(s_, ast.If) and not s_.orelse and s_.body and isinstance(s_.body[-1], (ast.Return, ast.Raise, ast.Continue, ast.Break)):
+                        g_ = FlagFormula(fn, s_, pm).build(s_.test)
+                        # (an exit that does not depend on the scale or the flags -- an empty operand -- leaves before any product exists)
+                        if any(a_ == 'f' or 'frac_length' in a_ or 'integral' in a_ for a_ in atoms_of(g_)):
+                            conj.append(('not', g_))
+        x = p_
+    return ('and', conj) if conj else ('const', True)
 
 
 def atoms_of(f, out=None):
@@ -421,29 +456,7 @@ def rule_FX3(ctx, rep):
             continue
 
         def guard(node):
-            conj = []
-            for i, br in enclosing_ifs(node, pm, stop=fn.node):
-                ff = FlagFormula(fn, i, pm)
-                g = ff.build(i.test)
-                conj.append(g if br == 'body' else ('not', g))
-            # early exits: `if C: return / raise / continue / break` earlier in an enclosing block means not C here
-            x = astq.enclosing_stmt(node, pm)
-            while x is not None and x is not fn.node:
-                p_ = pm.get(id(x))
-                if p_ is None:
-                    break
-                for blk in astq._blocks(p_):
-                    if any(x is s_ for s_ in blk):
-                        for s_ in blk:
-                            if s_ is x:
-                                break
-                            if isinstance(s_, ast.If) and not s_.orelse and s_.body and isinstance(s_.body[-1], (ast.Return, ast.Raise, ast.Continue, ast.Break)):
-                                g_ = FlagFormula(fn, s_, pm).build(s_.test)
-                                # (an exit that does not depend on the scale or the flags -- an empty operand -- leaves before any product exists)
-                                if any(a_ == 'f' or 'frac_length' in a_ or 'integral' in a_ for a_ in atoms_of(g_)):
-                                    conj.append(('not', g_))
-                x = p_
-            return ('and', conj) if conj else ('const', True)
+            return _guard_formula(fn, node, pm)
         gs = ('or', [guard(s) for s in shifts])
         gt = ('or', [guard(t) for t in truncs])
         ats = sorted(atoms_of(gs) | atoms_of(gt))
@@ -588,6 +601,11 @@ def rule_FX5(ctx, rep):
             holds = cond.implied(cx)           # atomic conditions that hold whenever this assignment runs (any nesting / polarity)
             under_none = any(a in ('None is integral', 'integral is None') for a in holds)
             v = norm(s.value)
+            # a temporary holding the test (`all_whole = ...; integral = bool(all_whole)`) is read through, one level
+            for nm_ in [x for x in ast.walk(s.value) if isinstance(x, ast.Name) and x.id not in ('integral', 'value', 'bool')]:
+                ds_ = [d for d in reaching_definitions(fn.node, nm_.id, s, pm) if d[2] == 'assign' and d[1] is not None]
+                if len(ds_) == 1 and len(reaching_definitions(fn.node, nm_.id, s, pm)) == 1:
+                    v = v.replace(nm_.id, norm(ds_[0][1]))
             if not under_none:
                 rep.bad('FX5', fn, s, 'an explicitly given integral argument is overwritten')
                 continue
@@ -618,11 +636,22 @@ def rule_FX5(ctx, rep):
         else:
             rep.bad('FX5', fn, fn.qualname, 'self.integral is not simply the given/inferred flag', fn.node)
     # returnType passes the declared flag to the constructor unchanged
+    # (the constructor lambdas may live in returnType itself or in a helper it calls with the declared type: the function holding
+    # them is analysed, with its own name for the declared type)
     rt = model.func('asyncoro::returnType')
-    lam = [l for l in ast.walk(rt.node) if isinstance(l, ast.Lambda) and 'integral' in norm(l)]
+    from . import sem
+    holder, tname = rt, 'rettype'
+    if not any(isinstance(l, ast.Lambda) and 'integral' in norm(l) for l in ast.walk(rt.node)):
+        for c in iter_nodes(rt.node):
+            if isinstance(c, ast.Call) and isinstance(c.func, ast.Name) and len(c.args) == 1 and norm(c.args[0]) == 'rettype':
+                h = model.funcs.get(f'asyncoro::{c.func.id}')
+                if h is not None and h.params and any(isinstance(l, ast.Lambda) and 'integral' in norm(l) for l in ast.walk(h.node)):
+                    holder, tname = h, h.params[0]
+    hpm = parents(holder.node)
+    lam = [l for l in ast.walk(holder.node) if isinstance(l, ast.Lambda) and 'integral' in norm(l)]
     okl = lam and all(('integral=integral' in norm(l)) or norm(l).endswith('stype(None, shape, integral)') for l in lam)
-    src = [s for s in iter_nodes(rt.node) if isinstance(s, ast.Assign) and norm(s.targets[0]) == 'integral' and norm(s.value) != 'None']
-    if okl and len(src) == 1 and norm(src[0].value) == 'rettype[1]':
+    src = [s for s in iter_nodes(holder.node) if isinstance(s, ast.Assign) and norm(s.targets[0]) == 'integral' and norm(s.value) != 'None']
+    if okl and len(src) == 1 and norm(sem.expand(holder, src[0].value, src[0], hpm)) == f'{tname}[1]':
         rep.ok('FX5', rt, src[0], 'placeholders are created with exactly the declared flag')
     else:
         rep.bad('FX5', rt, rt.qualname, 'returnType does not hand the declared flag (rettype[1]) unchanged to the placeholder constructor', rt.node)
